@@ -1,6 +1,8 @@
 package crlreader
 
 import (
+	"crypto"
+	"crypto/x509"
 	"crypto/x509/pkix"
 
 	"github.com/gr33nbl00d/caddy-revocation-validator/zz_verif/verifrt"
@@ -220,6 +222,12 @@ func VerifC06_Framing() {
 	// digest covers exactly tbsCertList
 	verifrt.Assert(theHash.n == p.tbsLen, "digest length = tbsCertList")
 	verifrt.Assert(eqBytes(theHash.log[:p.tbsLen], p.file[p.tbsOff:p.tbsOff+p.tbsLen]), "digest bytes = tbsCertList")
+	// (C04c) the declared algorithm selects the matching digest and verification strategy
+	wantHash := []crypto.Hash{crypto.SHA256, crypto.SHA256, crypto.SHA1, crypto.SHA512}[algIdx]
+	wantKey := []x509.PublicKeyAlgorithm{x509.RSA, x509.ECDSA, x509.RSA, x509.ECDSA}[algIdx]
+	verifrt.Assert(res.HashAndVerifyStrategy != nil && res.HashAndVerifyStrategy.HashStrategy == wantHash, "declared algorithm selects its hash")
+	verifrt.Assert(res.HashAndVerifyStrategy.VerifyStrategy.GetAlgorithmID() == wantKey, "declared algorithm selects RSA or ECDSA verification")
+	verifrt.Assert(eqBytes(res.CalculatedSignature, []byte{0xd1, 0x9e}), "reported digest is the digest of the hashed range")
 	verifrt.Assert(eqBytes(res.Signature.Bytes, p.sigContent), "signature value")
 	verifrt.Assert(res.Signature.BitLength == 8*len(p.sigContent), "signature bit length")
 	verifrt.Reach("checked")
